@@ -23,6 +23,18 @@ for sid in sorted(os.listdir(os.path.join(HERE, "seeded"))):
         suite += " (demo rc %s/%s)" % (m.get("demo_with_change_rc"), m.get("demo_without_change_rc"))
     br = (m.get("breaks") or "").replace("|", "/")[:230]
     rows.append(f"| {sid} | {br} | {'; '.join(b.replace('|', '/')[:150] for b in by[:2]) or 'NOT DETECTED'} | {replayed} | {suite} |")
+rf = os.path.join(HERE, "refactorings", "results.json")
+if os.path.exists(rf):
+    res = json.load(open(rf))
+    rrows = ["| property | refactoring | what it changes | check result |", "|---|---|---|---|"]
+    for r in res:
+        rrows.append(f"| {r['id']} | {r['patch']} | {r['what'][:170].replace('|', '/')} | {r['result']} |")
+    n0 = sum(1 for r in res if r["rc"] == 0)
+    rrows.append(f"| | | **{len(res)} refactorings: {n0} exit 0, {sum(1 for r in res if r['rc'] == 2)} exit 2 (undecided), "
+                 f"{sum(1 for r in res if r['rc'] == 3)} exit 3, {sum(1 for r in res if r['rc'] == 1)} exit 1** | |")
+    head = head.replace("@@REFAC_TABLE@@", "\n".join(rrows))
+else:
+    head = head.replace("@@REFAC_TABLE@@", "(results pending)")
 head = head.replace("@@STATUS_TABLE@@", status).replace("@@SEED_TABLE@@", "\n".join(rows))
 old = open(os.path.join(HERE, "DESIGN.md")).read()
 i = old.index("## 1. Why contracts + a deductive verifier reach what the tests cannot")
